@@ -148,6 +148,39 @@ def run_loops(chk, n):
         rc.classify(chk, "loops", p, real, rep, sp, REGIONS)
 
 
+def gen_alias_layer(r):
+    """directed: an isolated component (isolated mode, or `only`) used inside a fill whose `data=` / `default=` alias was set
+    while a provider of the inner component is alive around the slot — the alias lives on the Context layer that also
+    holds the provider's key, and must still not reach the isolated component (seeded/C03-5: whole layers forwarded)"""
+    T, V, L = tplgen.lit, tplgen.var, (lambda s: {"t": "text", "s": s})
+    alias = r.choice(["a", "b", "sd"])
+    names = ["a", "b", "c", "sd"]
+    show = [L("[")] + [nd for n in names for nd in ({"t": "out", "e": V(n)}, L(","))] + [L("]")]
+    isolated = r.random() < 0.6
+    c1 = {"name": "c1", "data": [["g", {"inject": "pk", "dflt": "none"}]] if r.random() < 0.5 else [], "template": show + [{"t": "out", "e": V(alias, "k1")}]}
+    slot = {"t": "slot", "name": T("s1"), "default": False, "required": False, "data": [["k1", T("SD")]], "body": [L("D")]}
+    inner = [slot] if r.random() < 0.15 else [{"t": "provide", "key": "pk", "kwargs": [["k1", T("P")]], "body": [slot]}]
+    c0 = {"name": "c0", "data": [], "template": [L("(")] + inner + [L(")")]}
+    tag1 = {"t": "comp", "name": "c1", "kwargs": [], "only": (not isolated) or r.random() < 0.3, "dyn": False, "body": []}
+    fill = {"t": "fill", "name": T("s1"), "data": alias if r.random() < 0.7 else None, "dflt": None if r.random() < 0.7 else "df",
+            "body": [L("F")] + show + [tag1]}
+    page = [{"t": "comp", "name": "c0", "kwargs": [], "only": False, "dyn": False, "body": [fill]}]
+    ctx = [[n, tplgen.sval("X" + n)] for n in names if r.random() < 0.5]
+    return {"isolated": isolated, "lib": [c0, c1], "entry": {"page": page}, "ctx": ctx, "raise": None}
+
+
+def run_alias_layer(chk, n):
+    progs = [gen_alias_layer(core.rng(PROP, "alias-layer", i)) for i in range(n)]
+    reps = rc.batch(progs)
+    for p, (rep, sp) in zip(progs, reps):
+        real = tplgen.run_real(p, limit=20.0)
+        chk.count("alias-layer", 1, validated=1)
+        chk.errkind(real["err"] or "ok")
+        chk.nontrivial(("alias-layer", real["out"] or real["err"]))
+        chk.branch(["alias-layer:mode:" + ("isolated" if p["isolated"] else "django")])
+        rc.classify(chk, "alias-layer", p, real, rep, sp, REGIONS)
+
+
 def run_noninterference(chk, n):
     for i in range(n):
         r = core.rng(PROP, "noninterference", i)
@@ -195,6 +228,7 @@ def run(tier: str) -> int:
     run_programs(chk, n)
     run_bindings(chk, n // 2)
     run_loops(chk, 30 if tier == "quick" else 400)
+    run_alias_layer(chk, 40 if tier == "quick" else 500)
     run_noninterference(chk, n // 3)
     chk.assumptions += [
         "names from a pool of eight so that collisions are common; values str / list[str] / dict",
